@@ -77,7 +77,7 @@ def cli_phase(rep, tier, seed):
             for v in range(rng.randint(2, 4)):
                 for _ in range(rng.randint(1, 4)):
                     live = sorted(paths)
-                    op = rng.choice(["mv", "mv", "rm", "cpi", "modify", "many-to-one", "one-to-many"])
+                    op = rng.choice(["mv", "mv", "rm", "cpi", "modify", "many-to-one", "one-to-many", "dir-to-file", "file-to-dir"])
                     if not live:
                         break
                     p = rng.choice(live)
@@ -93,6 +93,20 @@ def cli_phase(rep, tier, seed):
                             paths.append(q)
                     elif op == "modify":
                         sb.run(["cp", oid, os.path.join(sb.src, rng.choice(["M2", "N", "K"])), "--", p])
+                    elif op == "dir-to-file":
+                        # a directory is removed and a file takes its name (with new or with one of the removed contents)
+                        dirs = sorted({x.split("/")[0] for x in live if "/" in x})
+                        if dirs:
+                            dd = rng.choice(dirs)
+                            if sb.run(["rm", "-r", oid, dd])["rc"] == 0:
+                                paths[:] = [x for x in paths if not x.startswith(dd + "/")]
+                                if sb.run(["cp", oid, os.path.join(sb.src, rng.choice(["N", "X", "M2"])), "--", dd])["rc"] == 0:
+                                    paths.append(dd)
+                    elif op == "file-to-dir":
+                        if "/" not in p and sb.run(["rm", oid, p])["rc"] == 0:
+                            paths.remove(p)
+                            if sb.run(["cp", oid, os.path.join(sb.src, rng.choice(["N", "X"])), "--", p + "/inner.txt"])["rc"] == 0:
+                                paths.append(p + "/inner.txt")
                     elif op == "many-to-one":
                         same = [x for x in live if x in ("a.txt", "b.txt", "d/x.txt")]
                         if len(same) >= 2:
